@@ -62,9 +62,16 @@ impl Tour {
     pub open spec fn has_node(&self, x: NodeIdx) -> bool { exists|i: int| 0 <= i < self.len() && #[trigger] self.nodes@[i] == x }
     /// the position of a node of the tour (nodes are pairwise distinct, see lemma_index_of)
     pub open spec fn index_of(&self, x: NodeIdx) -> int { choose|i: int| 0 <= i < self.len() && #[trigger] self.nodes@[i] == x }
+    // prefix / middle / suffix / remainder of a tour cut at two positions (opaque: unfolded only inside
+    // the lemmas, to keep the sequence axioms out of the big function bodies)
+    #[verifier::opaque]
     pub open spec fn pre(&self, s: int) -> Seq<NodeIdx> { self.nodes@.subrange(0, s) }
+    #[verifier::opaque]
     pub open spec fn mid(&self, s: int, e: int) -> Seq<NodeIdx> { if s <= e { self.nodes@.subrange(s, e) } else { Seq::empty() } }
+    #[verifier::opaque]
     pub open spec fn suf(&self, e: int) -> Seq<NodeIdx> { self.nodes@.subrange(e, self.len()) }
+    #[verifier::opaque]
+    pub open spec fn rest(&self, s: int, e1: int) -> Seq<NodeIdx> { self.nodes@.subrange(0, s) + self.nodes@.subrange(e1, self.len()) }
     /// C12: removing [s ..= e] would strand a depot (a depot goes but an activity stays)
     pub open spec fn strands_depot(&self, s: int, e: int) -> bool {
         !self.is_dummy && ((s == 0 && e + 1 < self.len() - 1) || (e == self.len() - 1 && s - 1 > 0))
